@@ -295,7 +295,7 @@ func mentionsRng(t *Term, memo map[*Term]bool) bool {
 	if v, ok := memo[t]; ok {
 		return v
 	}
-	r := t.Op == "app" && t.Name == "rng"
+	r := t.Op == "app" && (t.Name == "rng" || strings.HasPrefix(t.Name, "spec."))
 	if !r {
 		for _, a := range t.Args {
 			if mentionsRng(a, memo) {
